@@ -8,7 +8,7 @@ from . import tlc
 from .core import MachineryFailure
 
 
-def validate(chk, module, traces, constants="", name=None, workers=8, timeout=1800, spec="TraceSpec"):
+def validate(chk, module, traces, constants="", name=None, workers=8, timeout=1800, spec="TraceSpec", java_opts=()):
     """traces: list of {"id": str|int, "cfg": {...}, "ev": [events]}.
     Returns (rejections, drifts): dicts id -> (position, [clauses]).
     Raises MachineryFailure if TLC did not demonstrably process every trace."""
@@ -20,7 +20,7 @@ def validate(chk, module, traces, constants="", name=None, workers=8, timeout=18
         with open(path, "w") as f:
             json.dump(traces, f, separators=(",", ":"))
         cfg = "SPECIFICATION %s\n%s\nCHECK_DEADLOCK FALSE\n" % (spec, constants)
-        res = tlc.run(module, cfg, workdir=wd, workers=workers, timeout=timeout, env={"WV_TRACES": path})
+        res = tlc.run(module, cfg, workdir=wd, workers=workers, timeout=timeout, env={"WV_TRACES": path}, java_opts=java_opts)
         chk.add_tlc(name or ("TV:" + module), res, "trace validation of %d recorded traces" % len(traces))
         rej, drift = {}, {}
         for t in tlc.printed_tuples(res, "REJ"):
